@@ -163,7 +163,9 @@ func (g *Gen) callSiteClauses(label string, n int, args []TV, pos token.Pos) {
 				oname = fmtf("%s/assert@%s#%d.%s", g.fnLabel(), label, n, cl.Label)
 			}
 			g.oblige("assert", oname, t, cl.Props, cl.Text, pos)
-			g.assume(t)
+			if !isRecordedFinding(oname) {
+				g.assume(t)
+			}
 		}
 	}
 
